@@ -32,6 +32,8 @@ type Recorder struct {
 	OverlapSaveUpdate   int64
 	CallCount           map[string]int64
 	Widen               time.Duration
+	// Images: applied index -> canonical dump of every image handed to SaveSnapshot
+	Images map[uint64]string
 }
 
 type Delivered struct {
@@ -41,7 +43,7 @@ type Delivered struct {
 }
 
 func NewRecorder() *Recorder {
-	return &Recorder{Streams: map[string][]Delivered{}, CallCount: map[string]int64{}}
+	return &Recorder{Streams: map[string][]Delivered{}, CallCount: map[string]int64{}, Images: map[uint64]string{}}
 }
 
 func (r *Recorder) Violate(sig string, format string, args ...interface{}) {
@@ -280,6 +282,25 @@ func (c *kvCore) image() kvImage {
 	return img
 }
 
+func (img kvImage) dump() string {
+	keys := make([]string, 0, len(img.Data))
+	for k := range img.Data {
+		keys = append(keys, k)
+	}
+	sort.Strings(keys)
+	var sb strings.Builder
+	for _, k := range keys {
+		fmt.Fprintf(&sb, "%s=%s;", k, img.Data[k])
+	}
+	return sb.String()
+}
+
+func (r *Recorder) saveImage(img kvImage) {
+	r.mu.Lock()
+	r.Images[img.Applied] = img.dump()
+	r.mu.Unlock()
+}
+
 func writeImage(w io.Writer, img kvImage, pad int) error {
 	data, err := json.Marshal(img)
 	if err != nil {
@@ -373,7 +394,9 @@ func (s *RegularKV) SaveSnapshot(w io.Writer, fc sm.ISnapshotFileCollection, sto
 	s.c.enterShared("SaveSnapshot", &s.c.inSave)
 	defer atomic.AddInt32(&s.c.inSave, -1)
 	s.c.widen()
-	return writeImage(w, s.c.image(), int(atomic.LoadInt32(&SnapshotPad)))
+	img := s.c.image()
+	s.c.rec.saveImage(img)
+	return writeImage(w, img, int(atomic.LoadInt32(&SnapshotPad)))
 }
 func (s *RegularKV) RecoverFromSnapshot(r io.Reader, files []sm.SnapshotFile, stop <-chan struct{}) error {
 	s.c.enterExclusive("RecoverFromSnapshot", &s.c.inRecover)
@@ -412,6 +435,7 @@ func (s *ConcurrentKV) SaveSnapshot(ctx interface{}, w io.Writer, fc sm.ISnapsho
 	s.c.enterShared("SaveSnapshot", &s.c.inSave)
 	defer atomic.AddInt32(&s.c.inSave, -1)
 	s.c.widen()
+	s.c.rec.saveImage(ctx.(kvImage))
 	return writeImage(w, ctx.(kvImage), int(atomic.LoadInt32(&SnapshotPad)))
 }
 func (s *ConcurrentKV) RecoverFromSnapshot(r io.Reader, files []sm.SnapshotFile, stop <-chan struct{}) error {
@@ -482,6 +506,7 @@ func (s *OnDiskKV) SaveSnapshot(ctx interface{}, w io.Writer, stop <-chan struct
 	s.c.enterShared("SaveSnapshot", &s.c.inSave)
 	defer atomic.AddInt32(&s.c.inSave, -1)
 	s.c.widen()
+	s.c.rec.saveImage(ctx.(kvImage))
 	return writeImage(w, ctx.(kvImage), int(atomic.LoadInt32(&SnapshotPad)))
 }
 func (s *OnDiskKV) RecoverFromSnapshot(r io.Reader, stop <-chan struct{}) error {
